@@ -297,6 +297,43 @@ pub fn run_law(op: &str, args: &[String]) -> String {
             }
             format!("(L {} {} {} {} {})", shape(&res), names_of(&a), enc_set(vs.iter()), evals(&res, &smp), cof.join(" "))
         }
+        "law.elimall" => {
+            // ∃ / ∀ / derivative by *all* inputs: a constant that is a function of the weight
+            // (kind B only; `which` = 0 wide disjunction, 1 recipe, 2 wide conjunction, 3 parity)
+            let which = seed % 4;
+            let b: Bdd<String> = match which {
+                0 => Bdd::try_from(Expression::n_ary_or(&(0..n).map(|i| lit(i, true)).collect::<Vec<_>>())).expect("HARNESS: bdd"),
+                2 => Bdd::try_from(Expression::n_ary_and(&(0..n).map(|i| lit(i, i % 3 != 0)).collect::<Vec<_>>())).expect("HARNESS: bdd"),
+                // parity: exclusive-or of literal diagrams (as an expression it would be exponential)
+                3 => (1..n).fold(Bdd::mk_literal(var(0), true), |acc, i| acc ^ Bdd::mk_literal(var(i), true)),
+                _ => Bdd::try_from(ea.clone()).expect("HARNESS: bdd"),
+            };
+            let all: BTreeSet<String> = b.inputs();
+            let empty: BTreeMap<String, bool> = BTreeMap::new();
+            let obs = |r: &Bdd<String>| -> String {
+                format!("({} {} {})", enc_names(r.verif_raw_inputs().iter()), r.inner().num_vars(), enc_bool(r.evaluate(&empty)))
+            };
+            format!(
+                "(L {} {} {} {} {})",
+                b.degree(), b.weight(),
+                obs(&b.existential_quantification(all.clone())),
+                obs(&b.universal_quantification(all.clone())),
+                obs(&b.derivative(all.clone()))
+            )
+        }
+        "law.forall.many" | "law.exists.many" => {
+            // an expression over 12 variables with 11 of them eliminated (the trees double per variable)
+            let k = 12usize;
+            let lits: Vec<E> = (0..k).map(|i| lit(i, (seed >> i) & 1 == 0)).collect();
+            let e: E = if seed % 2 == 0 { Expression::n_ary_or(&lits) } else { Expression::n_ary_and(&lits) };
+            let keep = (seed as usize / 2) % k;
+            let vs: BTreeSet<String> = (0..k).filter(|i| *i != keep).map(var).collect();
+            let r = if op == "law.forall.many" { e.universal_quantification(vs.clone()) } else { e.existential_quantification(vs.clone()) };
+            // the result depends on the kept variable only: both of its values
+            let at = |b: bool| -> bool { r.evaluate(&[(var(keep), b)].into_iter().collect()) };
+            let src_clause: Clauses = vec![(0..k).map(|i| (var(i), (seed >> i) & 1 == 0)).collect()];
+            format!("(L {} {} {} {} {} {})", enc_clauses(&src_clause), enc_bool(seed % 2 == 0), enc_name(&var(keep)), enc_names(r.inputs().iter()), enc_bool(at(false)), enc_bool(at(true)))
+        }
         "law.weight" => {
             // complement law and inclusion-exclusion, on exact big integers; both operands over the
             // same n variables
@@ -358,6 +395,16 @@ pub fn run_law(op: &str, args: &[String]) -> String {
         }
         "law.conv.EB" | "law.conv.BE" | "law.conv.ET" | "law.conv.TE" | "law.conv.BT" => {
             let dir = &op[9..];
+            // every third instance of B -> E uses a diagram whose DNF is large: the parity of 12
+            // variables (2048 clauses) or a conjunction of 11 two-literal disjunctions (2048 clauses)
+            let big: Option<E> = if dir == "BE" && seed % 3 == 0 {
+                Some((1..12).fold(lit(0, true), |acc, i| acc ^ lit(i, true)))
+            } else if dir == "BE" && seed % 3 == 1 {
+                Some(Expression::n_ary_and(&(0..11).map(|i| Expression::n_ary_or(&[lit(2 * i, true), lit(2 * i + 1, i % 2 == 0)])).collect::<Vec<_>>()))
+            } else {
+                None
+            };
+            let ea = big.unwrap_or(ea);
             let src = as_kind(&dir[0..1], &ea);
             let res = match (dir, &src) {
                 ("EB", Val::E(x)) => Val::B(Bdd::try_from(x.clone()).expect("HARNESS: conv")),
@@ -640,8 +687,8 @@ pub fn gen_laws(cx: &mut crate::gen::Ctx, prop: &str) {
         "C04" => &["law.cmp"],
         "C08" => &["law.subst"],
         "C05" => &["law.restrict"],
-        "C06" => &["law.exists", "law.forall"],
-        "C07" => &["law.deriv"],
+        "C06" => &["law.exists", "law.forall", "law.elimall", "law.forall.many", "law.exists.many"],
+        "C07" => &["law.deriv", "law.elimall"],
         "C09" => &["law.essential"],
         "C10" => &["law.weight"],
         "C11" => &["law.nnf", "law.cnf", "law.dnf"],
@@ -684,6 +731,14 @@ pub fn gen_laws(cx: &mut crate::gen::Ctx, prop: &str) {
                 ("B", if cx.thorough { vec![17, 33, 54, 65, 90] } else { vec![17, 33, 54, 65] }),
             ]
         };
+        let kinds: Vec<(&str, Vec<usize>)> = if *op == "law.elimall" {
+            vec![("B", vec![17, 54, 65])]
+        } else if op.ends_with(".many") {
+            vec![("E", vec![12])]
+        } else {
+            kinds
+        };
+        let seeds = if *op == "law.elimall" { 4 } else if *op == "law.conv.BE" { 3 } else { seeds };
         for (kind, sizes) in kinds {
             for n in sizes {
                 // expression quantification doubles the tree per variable; keep it small there
@@ -691,7 +746,8 @@ pub fn gen_laws(cx: &mut crate::gen::Ctx, prop: &str) {
                     continue;
                 }
                 for k in 0..seeds {
-                    let seed = cx.rng.next() % 100000 + k as u64;
+                    // consecutive seeds, so that every residue class the recipes switch on occurs
+                    let seed = (cx.rng.next() % 25000) * 4 + k as u64;
                     cx.emit(prop, op, &[Arg::A(kind.to_string()), Arg::A(n.to_string()), Arg::A(seed.to_string())], true);
                 }
             }
